@@ -522,12 +522,15 @@ func TestVerif_C30(t *testing.T) {
 	logger.Patch(log.SetWriter(io.Discard), log.SetLevel(log.Critical))
 	thorough := verifmc.Thorough()
 	maxSlots := verifmc.Pick(uint32(2), uint32(3))
-	depth := verifmc.Pick(4, 5)
+	depth := verifmc.Pick(3, 4)
+	deepDepth := verifmc.Pick(4, 5)                 // quick: one level deeper for maxIn=maxOut=1 (both modes)
 	if v := os.Getenv("VERIF_C30_DEPTH"); v != "" { // to reproduce a shallow counterexample faster; recorded in the rule text
 		fmt.Sscan(v, &depth)
+		deepDepth = depth
 	}
 	base := c30BaseOps(thorough)
-	r.Rule = fmt.Sprintf("for every configuration maxIn,maxOut in 0..%d x reservedOnly in {false,true}: BFS over all histories of <=%d operations on the real PeerSet over peers p1..p3: addPeer/incoming/disconnect/removePeer/addReserved/removeReserved(p), setReserved(set), report(d;p) and report(d;p,q) for d in {MinInt32, threshold-1, threshold, -1, +1, MaxInt32}, tick(1s), tick(3601s), periodicAlloc; operations whose result can depend on a map iteration order are executed under all 6 peer orders; invariants S1,S2,B1,B2,R1 after every operation; Reputation.add/sub on a 23x23 boundary grid", maxSlots, depth)
+	r.Rule = fmt.Sprintf("for every configuration maxIn,maxOut in 0..%d x reservedOnly in {false,true}: BFS over all histories of <=%d operations (<=%d for maxIn=maxOut=1) on the real PeerSet over peers p1..p3: addPeer/incoming/disconnect/removePeer/addReserved/removeReserved(p), setReserved(set) for %s, report(d;p) for d in {MinInt32, threshold-1, threshold, -1, +1, MaxInt32} and report(d;p,q) over ordered pairs for %s, tick(1s), tick(3601s), periodicAlloc; operations whose result can depend on a map iteration order are executed under all 6 peer orders; invariants S1,S2,B1,B2,R1 after every operation; Reputation.add/sub on a 23x23 boundary grid", maxSlots, depth, deepDepth,
+		verifmc.Pick("the sets {},{p1},{p1,p2},{p1,p2,p3}", "all 8 subsets"), verifmc.Pick("d in {threshold-1, -1}", "the same six d"))
 	r.Assumption("wall clock and order-sensitive map iterations of dot/peerset are owned through overlay rewrites (c30_hooks.go); one order per operation (all order-sensitive iterations inside one operation follow the same peer order)")
 	r.Assumption("the PeerSet is driven through the methods the action loop dispatches to, not through the goroutine/channel loop itself")
 
@@ -604,10 +607,26 @@ func TestVerif_C30(t *testing.T) {
 		return false
 	}
 
+	var cfgs, deep []c30Cfg
 	for in := uint32(0); in <= maxSlots; in++ {
 		for out := uint32(0); out <= maxSlots; out++ {
 			for _, ro := range []bool{false, true} {
-				cfg := c30Cfg{in, out, ro}
+				if in == 1 && out == 1 {
+					deep = append(deep, c30Cfg{in, out, ro})
+				} else {
+					cfgs = append(cfgs, c30Cfg{in, out, ro})
+				}
+			}
+		}
+	}
+	for _, cfg := range append(cfgs, deep...) {
+		{
+			{
+				in, out, ro := cfg.maxIn, cfg.maxOut, cfg.reservedOnly
+				cfgDepth := depth
+				if in == 1 && out == 1 {
+					cfgDepth = deepDepth
+				}
 				h := &verifmc.Hist[*c30State]{
 					Fresh: func() *c30State { return c30Fresh(cfg) },
 					Ops: func(s *c30State) []verifmc.Op {
@@ -624,7 +643,7 @@ func TestVerif_C30(t *testing.T) {
 						sens := make([]bool, len(cand))
 						for start := 0; start < len(cand); {
 							var done int32 = int32(start)
-							fin, _ := verifmc.WithWatchdog(10*time.Second, func() {
+							fin, _ := verifmc.WithWatchdog(60*time.Second, func() {
 								for i := start; i < len(cand); i++ {
 									if cand[i].kind != "tick" {
 										d := c30Fresh(cfg)
@@ -680,8 +699,8 @@ func TestVerif_C30(t *testing.T) {
 						return k + ":" + desc
 					},
 					Release:     c30Release,
-					Depth:       depth,
-					ElemTimeout: 20 * time.Second,
+					Depth:       cfgDepth,
+					ElemTimeout: 60 * time.Second, // generous: the machine may be heavily oversubscribed
 				}
 				before := r.Counters["states"]
 				h.Explore(r)
